@@ -50,6 +50,8 @@ LEVEL_TEXT = ("Fault enumeration: every file-system call position of the short p
 LEVEL_NOTE = "Trusts strace's injection and the per-format readers (JSON, zipfile.testzip, byte equality, pypdf, ODF zip+XML)."
 TECHNIQUE = "syscall-trace checker + exhaustive crash/error injection (strace inject) and disk-full-after-N-bytes runs (RLIMIT_FSIZE) with a reader oracle on the published path"
 
+LONGTITLE = "Lx" + "\xe9" * 49 + "abc.png"
+LONGNAME = "Lx" + "~233~" * 49 + "abc.png"      # 254 bytes: the escaped file name of a long / non-ASCII image title
 PRODUCERS = {          # name -> (published file, quick position cap, thorough cap)
     "status": ("out.json", None, None),
     "status_big": ("out.json", None, None),
@@ -57,9 +59,14 @@ PRODUCERS = {          # name -> (published file, quick position cap, thorough c
     "download": ("out.png", None, None),
     "makezip": ("out.zip", 16, 400),
     "mwzip": ("out.zip", 16, 400),
+    "mwzip_keep": ("out.zip", 10, 200),
+    "download_longname": (LONGNAME, None, None),
     "render": ("out.pdf", 10, 300),
     "render_odf": ("out.odt", 8, 200),
 }
+
+
+MAY_DECLINE = {"download_longname"}
 
 
 def plan(tier, seed):
@@ -88,10 +95,10 @@ def prepare(producer, workdir, old):
                         ("siteinfo.json", b"{}" * 3000), ("images/a.png", os.urandom(30000)), ("metabook.json", b"{}")):
             with open(os.path.join(src, n), "wb") as f:
                 f.write(data)
-    if producer == "download":
+    if producer in ("download", "download_longname"):
         with open(os.path.join(workdir, "payload.bin"), "wb") as f:
             f.write(bytes(range(256)) * 100)
-    if producer in ("makezip", "mwzip"):
+    if producer in ("makezip", "mwzip", "mwzip_keep"):
         with open(os.path.join(workdir, "wiki.json"), "w") as f:
             json.dump(WIKI_CASE, f)
     if producer in ("render", "render_odf"):
@@ -231,6 +238,7 @@ def trace_check(calls_after, published):
     """(M1) rename protocol on the published path; returns list of (key, what)"""
     out = []
     open_fds = {}      # path -> list of open write fds (as strings)
+    reused = set()     # paths opened for writing without O_TRUNC / O_EXCL: content of an earlier, crashed run survives
     for pid, name, rest in calls_after:
         if name in ("openat", "creat"):
             m = re.search(r'"([^"]*)", ([A-Z_|0-9]+)', rest)
@@ -243,6 +251,8 @@ def trace_check(calls_after, published):
             fd = re.search(r"= (\d+)<", rest)
             if writing and fd:
                 open_fds.setdefault(os.path.abspath(path), []).append(fd.group(1))
+                if "O_TRUNC" not in flags and "O_EXCL" not in flags:
+                    reused.add(os.path.abspath(path))
         elif name in ("write", "pwrite64", "writev", "ftruncate"):
             m = re.match(r"(\d+)<([^>]*)>", rest)
             if m and os.path.abspath(m.group(2)) == published:
@@ -257,6 +267,9 @@ def trace_check(calls_after, published):
             ps = re.findall(r'"([^"]*)"', rest)
             if len(ps) >= 2 and os.path.abspath(ps[-1]) == published and "= 0" in rest:
                 src = os.path.abspath(ps[0] if name == "rename" else ps[-2])
+                if src in reused:
+                    out.append(("trace:temp-opened-without-truncation", "the file renamed onto the published path (%r) was opened for "
+                                "writing without O_TRUNC/O_EXCL: what a crashed earlier run left in it stays behind the new content" % src))
                 if open_fds.get(src):
                     out.append(("trace:renamed-before-writer-closed", "rename(%r -> published path) while descriptor(s) %s on the source are still open" % (
                         src, open_fds[src])))
@@ -337,6 +350,15 @@ def run_shard(desc, R):
         R.inconc("no marker in trace of %s" % producer)
         return
     state, why = reader(out)
+    if state == "absent" and producer in MAY_DECLINE:
+        # the producer declined (the temporary name does not fit the file system): nothing may have touched the name
+        R.count("traces_checked")
+        R.count("producer_declined_cleanly")
+        for key, what in trace_check(after, os.path.abspath(out)):
+            R.violation(key + ":" + producer, what, {"producer": producer, "trace": True})
+        R.case(h64("trace", producer), True)
+        shutil.rmtree(wd, ignore_errors=True)
+        return
     if state != "new":
         R.violation("reader-rejects-unfaulted-output:" + producer, "after an un-faulted run the published path is %s (%s)" % (state, why), {"producer": producer})
         return
